@@ -483,9 +483,10 @@ status_t RawDataQueryFilter :: SaveToArchive(Message & archive) const
    const ByteBuffer * dd = _default();
    if (dd)
    {
-      const uint32 numBytes = dd->GetNumBytes();
-      const uint8 * bytes = dd->GetBuffer();
-      if (bytes) MRETURN_ON_ERROR(archive.AddData("def", B_RAW_TYPE, bytes, numBytes));  // I'm deliberately not testing if (numBytes>0) here!
+      // A zero-length default is still a default, but it has no buffer and AddData() refuses zero bytes, so we add it as a ByteBuffer instead
+      ByteBufferRef defCopy = GetByteBufferFromPool(dd->GetNumBytes(), dd->GetBuffer());
+      MRETURN_ON_ERROR(defCopy);
+      MRETURN_ON_ERROR(archive.AddFlat("def", defCopy));
    }
 
    return B_NO_ERROR;
@@ -508,9 +509,11 @@ status_t RawDataQueryFilter :: SetFromArchive(const Message & archive)
    }
 
    _default.Reset();
-   if (archive.FindData("def", B_RAW_TYPE, &data, &numBytes).IsOK())
+   uint32 defType;
+   ConstByteBufferRef defBuf;  // FindFlat() rather than FindData(), because FindData() can't hand back a zero-length buffer
+   if ((archive.GetInfo("def", &defType).IsOK())&&(defType == B_RAW_TYPE)&&(archive.FindFlat("def", defBuf).IsOK()))
    {
-      _default = GetByteBufferFromPool(numBytes, (const uint8 *) data);
+      _default = GetByteBufferFromPool(defBuf()->GetNumBytes(), defBuf()->GetBuffer());
       MRETURN_ON_ERROR(_default);
    }
 
@@ -533,6 +536,7 @@ bool RawDataQueryFilter :: Matches(ConstMessageRef & msg, const DataNode *) cons
       {
          hb = _default()->GetBuffer();
          hisNumBytes = _default()->GetNumBytes();
+         if (hb == NULL) hb = "";  // a zero-length default has no buffer, but memcmp() and MemMem() mustn't be handed a NULL pointer
       }
       else return false;
    }
